@@ -64,6 +64,8 @@ struct World {
   std::vector<Fault> faults;
   std::map<std::pair<int, int>, int> link_count;
   std::set<std::pair<int, int>> partitioned;     // links currently cut
+  // property-specific in-flight tampering: may rewrite the datagram (taps have seen the original as SEND; DELIVER shows the result)
+  std::function<bool(simk::Datagram &d, int from, int to, int idx)> rewrite;
   bool icmp_on_nosock = false;
   // stream policy
   std::map<std::pair<uint64_t, int>, std::deque<size_t>> read_cuts;   // (stream id, side) -> sizes of the next reads
